@@ -62,10 +62,11 @@ where
             }
         }
         "rem_int_r" => {
-            let mut r = [0u128; 3];
+            let mut r = [0u128; 4];
             let p = guard(&mut || {
                 let q = F::x_rem_int_refs(&x, &i);
-                r = [tb(q[0]), tb(q[1]), tb(q[2])];
+                let s = F::x_int_assign_refs(x, &i, 2);
+                r = [tb(q[0]), tb(q[1]), tb(q[2]), tb(s)];
             });
             match p {
                 None => r.iter().for_each(|v| ev.v(*v)),
